@@ -233,6 +233,8 @@ pub struct Daemon {
     closed_m: Vec<bool>,
     /// Channels listed here are NOT drained (undrained-channel deviation).
     pub hold_b: Vec<usize>,
+    /// hostname-resolution channels the client is not reading at the moment
+    pub hold_h: Vec<usize>,
     pub state: StepOut,
     pub needs_step: bool,
     /// Iterations that produced no observable output, asked for wake-up <= now+1 (spin guard).
@@ -252,6 +254,9 @@ pub struct World {
     pub trace: bool,
     pub steps: u64,
     pub hang: Duration,
+    /// A slow but live client: channels on hold are read again as soon as the daemon has not come back
+    /// for 400 ms of real time, i.e. is blocked sending on one of them.
+    pub release_when_blocked: bool,
     /// Set when more than 20 000 iterations were needed to settle one instant: packets keep
     /// causing packets without virtual time passing (description with the last log lines).
     pub storm: Option<String>,
@@ -286,6 +291,7 @@ impl World {
             links: Vec::new(),
             loopback: std::env::var("VERIF_LOOPBACK").is_ok_and(|v| v == "1"),
             storm: None,
+            release_when_blocked: false,
             trace: std::env::var("VERIF_TRACE").is_ok(),
             steps: 0,
             hang: HANG,
@@ -316,6 +322,7 @@ impl World {
             closed_h: vec![],
             closed_m: vec![],
             hold_b: vec![],
+            hold_h: vec![],
             state: st,
             needs_step: false,
             spin_run: 0,
@@ -404,6 +411,9 @@ impl World {
                 }
             }
             for (i, rx) in dm.host.iter().enumerate() {
+                if dm.hold_h.contains(&i) {
+                    continue;
+                }
                 loop {
                     match rx.try_recv() {
                         Ok(e) => got.push(Kind::H(i, hev(e))),
@@ -480,6 +490,11 @@ impl World {
                 Ok(Phase::Exited { panicked }) => break StepOut::Exited { panicked },
                 Ok(_) | Err(_) => {
                     // Possibly blocked on a full event channel: drain and keep waiting.
+                    if self.release_when_blocked && start.elapsed() > Duration::from_millis(400) {
+                        self.ds[d].hold_b.clear();
+            self.ds[d].hold_h.clear();
+                        self.ds[d].hold_h.clear();
+                    }
                     self.drain(d);
                     if start.elapsed() > self.hang {
                         break StepOut::Hung;
